@@ -130,12 +130,12 @@ locale = {
             "afternoon1": "‘s middags",
             "evening1": "‘s avonds",
             "night1": "‘s nachts",
-            "week_data": {
-                "min_days": 1,
-                "first_day": 0,
-                "weekend_start": 5,
-                "weekend_end": 6,
-            },
+        },
+        "week_data": {
+            "min_days": 1,
+            "first_day": 0,
+            "weekend_start": 5,
+            "weekend_end": 6,
         },
     },
     "custom": custom_translations,
